@@ -7,7 +7,7 @@
     i.e. for every interleaving of requests, releases, cancellations and
     dialer steps over any number of threads and addresses and every choice of
     dial outcomes.  Non-vacuity: ConnProofs.ex_shared, ex_closed, ex_fresh,
-    ex_failed, ex_two_dials, ex_failing_window. *)
+    ex_failed, ex_two_dials, ex_failing_window, ex_concurrent_release. *)
 From Coq Require Import List ZArith NArith Arith.
 Import ListNotations.
 From Gnmi Require Import Conn.ConnLts Conn.ConnCheck Conn.ConnProofs.
@@ -73,7 +73,7 @@ Print Assumptions C16_closed_iff_no_holder.
 
 Theorem C16_last_release_closes :
   forall s i t c h s', reachable s -> thr s i = Some t -> t_obj t = Some c ->
-  t_pc t = PRet (RConn h) -> t_once t = false -> holders s c = 1%nat ->
+  t_pc t = PRet (RConn h) -> t_once t = false -> t_run t = true -> holders s c = 1%nat ->
   step s (LRelease i) = Some s' ->
   In c (close_log s') /\ conns s' (t_addr t) = None /\ panicked s' = false.
 Proof. exact last_release_closes. Qed.
@@ -103,6 +103,27 @@ Theorem C16_release_after_failure_noop :
   forall s i t e, reachable s -> thr s i = Some t -> t_pc t = PRet (RErr e) -> step s (LRelease i) = Some s.
 Proof. exact release_after_failure_noop. Qed.
 Print Assumptions C16_release_after_failure_noop.
+
+(** double_release_noop for CONCURRENT calls of one done function.  A call is
+    [LRelBegin i] (check-and-set of the Once; any goroutine, any time), the
+    function under the Once is [LRelease i].  A call that finds the Once
+    entered -- by a caller that may still be waiting for m.mu -- or finished is
+    the identity on the state, wherever it is scheduled; the function under
+    the Once has exactly one effective run, after which both steps are
+    identities. *)
+Theorem C16_concurrent_release_noop :
+  forall s i t, reachable s -> thr s i = Some t -> t_run t = true \/ t_once t = true ->
+  step s (LRelBegin i) = Some s.
+Proof. exact concurrent_release_noop. Qed.
+Print Assumptions C16_concurrent_release_noop.
+
+Theorem C16_release_runs_once :
+  forall s i t h s', reachable s -> thr s i = Some t -> t_pc t = PRet (RConn h) -> t_once t = false ->
+  step s (LRelease i) = Some s' ->
+  t_run t = true /\ exists t', thr s' i = Some t' /\ t_once t' = true /\
+  step s' (LRelease i) = Some s' /\ step s' (LRelBegin i) = Some s'.
+Proof. exact release_runs_once. Qed.
+Print Assumptions C16_release_runs_once.
 
 (** remove_precondition *)
 Theorem C16_never_panics : forall s, reachable s -> panicked s = false.
